@@ -30,6 +30,9 @@ var vfCursorVals = []uint64{0, 5, 1 << 47, 1<<48 - 1, 1<<47 + 12345}
 // Backends return arbitrary next cursors from a set of boundary values (0 ends a node), pages may
 // be empty with a non-zero cursor, MATCH/COUNT are forwarded untouched.
 func VfC18_Iteration() {
+	nd.PoolReuse(true) // pooled buffers are handed out again at once: a reply must not live in one
+	var prevResp *RespValue
+	var prevCursor []byte
 	nh := nd.Param("hosts", 2)
 	rounds := nd.Param("rounds", 2)
 	addrs := []string{"10.0.0.1:7000", "10.0.0.2:7000", "10.0.0.3:7000"}[:nh]
@@ -81,7 +84,12 @@ func VfC18_Iteration() {
 		nd.Assert(vfDone(raw.done), "the client's SCAN is answered when the node answers")
 		resp := raw.Response()
 		nd.Assert(resp.Type == Array && len(resp.Array) == 2 && len(resp.Array[1].Array) == nkeys, "the node's keys are returned, no others")
-		cursor = resp.Array[0].Text
+		if prevResp != nil {
+			// the previous reply may still be waiting to be written (pipelined SCANs, other sessions)
+			nd.Assert(vfBytesEq(prevResp.Array[0].Text, prevCursor), "a SCAN reply keeps its cursor while later SCAN replies are converted")
+		}
+		prevResp, prevCursor = resp, append([]byte(nil), resp.Array[0].Text...)
+		cursor = append([]byte(nil), resp.Array[0].Text...)
 		if next == 0 {
 			node, nodeCur, nodeRounds = node+1, 0, 0
 		} else {
@@ -102,6 +110,32 @@ func VfC18_Iteration() {
 		}
 	}
 	nd.Assert(finished, "the iteration terminates within nodes x rounds + 1 calls")
+}
+
+// VfC18_NodeUnreachable: SCAN names its node explicitly. When that node cannot be reached the
+// client gets an error it can retry with the same cursor; the call is never answered by another
+// node (whose cursor space is unrelated), so no part of the key space is skipped silently.
+func VfC18_NodeUnreachable() {
+	addrs := []string{"10.0.0.1:7000", "10.0.0.2:7000"}
+	u, clients := vfNewUpstream(nil, addrs...)
+	down := nd.Concrete(nd.IntRange("down", 0, 1))
+	hosts := u.Hosts()
+	idx := -1
+	for i, h := range hosts {
+		if h.Addr == addrs[down] {
+			idx = i
+		}
+	}
+	nd.Assume(idx >= 0)
+	u.removeClient(addrs[down]) // no connection to it, and connecting is refused (net.DialTimeout stub)
+	nodeCur := vfCursorVals[nd.Concrete(nd.Choice("cur", len(vfCursorVals)))]
+	cursor := strconv.FormatUint(uint64(idx)<<48|nodeCur, 10)
+	raw := newRawRequest(newArray(*newBulkString("scan"), *newBulkString(cursor)))
+	nd.PanicLabel("handleScan")
+	handleScan(u, raw)
+	nd.Assert(vfForwarded(clients) == 0, "a SCAN for an unreachable node is not sent to any other node")
+	nd.Assert(vfDone(raw.done) && raw.Response().Type == Error, "the client gets an error reply (and can retry with the same cursor)")
+	nd.Cover("unreachable-node")
 }
 
 var vfClientCursors = []string{"0", "281474976710656", "562949953421312", "9223372036854775807", "18446744073709551615", "-1", "abc", "", "99999999999999999999"}
